@@ -806,7 +806,11 @@ func (g *DocGen) PathItem(path []string, depth int) obj {
 	g.mark(path, k)
 	o := obj{}
 	if g.Refs && (g.Only == nil && g.R.Intn(8) == 0 || g.Only != nil && len(path) == 0 && g.Only[0] == k && g.Only[1] == "$ref") {
-		o["$ref"] = g.pick([]string{"other.json#/paths/~1pets", "#/paths/~1x", "http://example.com/p.json#/paths/~1a~1%7Bid%7D"})
+		if g.Valid {
+			o["$ref"] = "other.json#/paths/~1pets"
+		} else {
+			o["$ref"] = g.pick([]string{"other.json#/paths/~1pets", "#/paths/~1x", "http://example.com/p.json#/paths/~1a~1%7Bid%7D"})
+		}
 		g.cell(k, "$ref")
 		return o
 	}
@@ -922,6 +926,24 @@ func init() {
 
 var unknownKeywords = []string{"const", "examples", "if", "contentMediaType", "deprecated", "é", "a\"b", "my keyword", "$id", "$comment", "a\\b"}
 
+// ValidSiblingRefs are references into the sibling document used by schema-valid documents (C19).
+var ValidSiblingRefs = []string{"other.json#/definitions/Shared", "other.json#/definitions/a~1b", "./other.json#/definitions/Tree"}
+
+// SiblingDoc is the document served next to a schema-valid root: well-founded, with a cycle among its definitions.
+func SiblingDoc() map[string]interface{} {
+	return obj{
+		"definitions": obj{
+			"Shared": obj{"type": "object", "title": "shared", "properties": obj{"id": obj{"type": "integer", "format": "int64"}, "tree": obj{"$ref": "#/definitions/Tree"}}},
+			"a/b":    obj{"type": "string", "description": "escaped name"},
+			"Tree":   obj{"type": "object", "properties": obj{"children": obj{"type": "array", "items": obj{"$ref": "#/definitions/Tree"}}}},
+		},
+		"paths": obj{"/pets": obj{
+			"get": obj{"operationId": "listPets", "responses": obj{"200": obj{"description": "ok", "schema": obj{"$ref": "#/definitions/Shared"}}, "default": obj{"description": ""}}},
+			"parameters": []interface{}{obj{"name": "limit", "in": "query", "type": "integer", "minimum": float64(0)}},
+		}},
+	}
+}
+
 // SchemaRefPool is the pool of canonical reference texts for schema $refs when no local targets are known.
 var SchemaRefPool = []string{"#/definitions/Pet", "#/definitions/a~1b", "other.json#/definitions/X", "http://example.com/s.json#/definitions/Y",
 	"sub/dir/file.json", "#/definitions/%C3%A9", "../up.json#/a/0", "file:///abs/path.json#/definitions/Z", "#/x%20y"}
@@ -932,8 +954,10 @@ func (g *DocGen) Schema(path []string, depth int) obj {
 	o := obj{}
 	deep := depth >= g.MaxDepth
 	if g.Refs && g.Only == nil && g.R.Intn(6) == 0 {
-		if r, ok := g.localRef("schema"); ok {
+		if r, ok := g.localRef("schema"); ok && (!g.Valid || g.R.Intn(3) != 0) {
 			o["$ref"] = r
+		} else if g.Valid {
+			o["$ref"] = g.pick(ValidSiblingRefs) // a definition of the sibling document (see SiblingDoc)
 		} else {
 			o["$ref"] = g.pick(SchemaRefPool)
 		}
